@@ -26,6 +26,8 @@ THEOREMS = [
     "JanetModel.Props.C18.spawn_inherits",
     "JanetModel.Props.C18.thread_keeps_parent_flags",
     "JanetModel.Props.C18.sandboxOp_guarded",
+    "JanetModel.Props.C18.sandboxCfun_disables",
+    "JanetModel.Props.C18.sandboxCfun_unknown",
     "JanetModel.Props.C18.interp_sound",
     "JanetModel.Props.C18.interp_sound_addr",
     "JanetModel.Props.C18.checker_sound",
@@ -36,6 +38,8 @@ THEOREMS = [
     "JanetModel.Props.C18.gen_entries",
     "JanetModel.Props.C18.sandbox_enforced_addr",
     "JanetModel.Props.C18.gen_tables",
+    "JanetModel.Props.C18.gen_keywords",
+    "JanetModel.Props.C18.gen_threadStart",
     "JanetModel.Props.C18.sandbox_enforced",
 ]
 WRAPPED = ("remove unlink rmdir chdir opendir getenv unsetenv rename link symlink system mkdir chmod utime stat stat64 lstat "
@@ -139,7 +143,7 @@ def predicted_modes(M, C):
         return {}
     for n, (fn, op, succ) in enumerate(M.nodes):
         if op[0] == "libc" and op[2] in gen.OPEN_FLAGS_ARG:
-            per_fn.setdefault(M.slice[fn], set()).update(m for m, k in C.K[n])
+            per_fn.setdefault(M.slice[fn], set()).update(m & gen.LO_KEEP for m, k in C.K[n])     # low half: open flags (high half: a tracked assert-mask variable)
     out = {}
     for jn, cfs in M.regs.items():
         for c in cfs:
@@ -316,6 +320,59 @@ def flag_scenarios(ctx, hx, exe, n):
     return ran, diffs
 
 
+KEYWORDS = ["all", "env", "ffi", "ffi-define", "ffi-jit", "ffi-use", "fs", "fs-read", "fs-temp", "fs-write", "hrtime", "modules", "net",
+            "net-connect", "net-listen", "sandbox", "signal", "subprocess"]
+KWSCRIPT = os.path.join(VERIF, "harness/C18/keywords.janet")
+
+
+def keyword_scenarios(ctx, hx, exe, n):
+    """(sandbox & keywords) - corelib.c janet_core_sandbox vs the Lean model sandboxCfun (driver kwseq): sequences of calls with
+    single / composite / unknown keywords, each sequence in a fresh thread.  -> (ran, diffs, distribution)"""
+    rng = ctx.rng.fork("keywords")
+    scen = []
+    dist = {"calls": 0, "unknown_keyword": 0, "composite": 0, "sandbox_cap": 0, "no_argument": 0}
+    for _ in range(n):
+        calls = []
+        for _c in range(rng.range(1, 5)):
+            ks = []
+            for _k in range(rng.range(0, 4)):
+                if rng.chance(1, 12):
+                    ks.append(["bogus", "fs-", "FS", "net-connect "][rng.below(3)])
+                    dist["unknown_keyword"] += 1
+                else:
+                    k = KEYWORDS[rng.below(len(KEYWORDS))]
+                    if k == "all" and not rng.chance(1, 3):
+                        k = "hrtime"
+                    if k == "sandbox" and not rng.chance(1, 2):
+                        k = "env"
+                    ks.append(k)
+                    dist["composite"] += k in ("all", "fs", "net", "ffi")
+                    dist["sandbox_cap"] += k in ("all", "sandbox")
+            dist["calls"] += 1
+            dist["no_argument"] += not ks
+            calls.append(",".join(ks) or "-")
+        scen.append(";".join(calls))
+    base = tempfile.mkdtemp(prefix="c18-kw-", dir="/var/tmp")
+    diffs = []
+    try:
+        rc, out, err = run_cmd([hx, KWSCRIPT, os.path.join(base, "log"), base] + scen, timeout=120, env=ENV, cwd=base)
+        lines = out.decode(errors="replace").split("\n")
+    finally:
+        shutil.rmtree(base, ignore_errors=True)
+    impl = {}
+    for l in lines:
+        p = l.split(" ")
+        if p[0] == "k" and len(p) >= 2:
+            impl[int(p[1])] = " ".join(p[2:])
+    model = ctx.model(["kwseq 0 " + s for s in scen], exe=exe)
+    if rc != 0 or "main 0" not in lines:
+        diffs.append(dict(why="keywords.janet failed", rc=rc, out=lines[:6], err=err.decode(errors="replace")[-300:]))
+    for i, s in enumerate(scen):
+        if impl.get(i) != model[i].strip():
+            diffs.append(dict(scenario=s, impl=impl.get(i), model=model[i].strip()))
+    return len(scen), diffs, dist
+
+
 def janet_source(v):
     caps = " ".join(":" + c for c in v["caps"].split(","))
     return "(sandbox %s)  # then, in mode %s: call %s with argument shape #%d of harness/C18/sweep.janet" % (caps, v["mode"], v["binding"], v["shape"])
@@ -442,15 +499,24 @@ def run(ctx):
         for dff in fdiffs[:3]:
             ctx.violation("flags:" + str(dff.get("step", dff.get("why", "")))[:40], {"kind": "flag-word", "detail": dff, "janet": "harness/C18/flags.janet " + json.dumps(dff.get("scenario"))},
                           what="sandbox flag word differs from the model / is not inherited: %r" % (dff,))
+    nkw, kwdiffs, kwdist = 0, [], {}
+    if hx and exe:
+        nkw, kwdiffs, kwdist = keyword_scenarios(ctx, hx, exe, 60 if quick else 600)
+        ctx.say("keyword scenarios: %d sequences (%s), %d differ from sandboxCfun" % (nkw, kwdist, len(kwdiffs)))
+        for dff in kwdiffs[:3]:
+            ctx.violation("keywords:" + str(dff.get("scenario", dff.get("why", "")))[:40], {"kind": "sandbox-keywords", "detail": dff,
+                          "janet": "in a fresh thread: " + " ".join("(sandbox %s)" % " ".join(":" + k for k in c.split(",") if k != "-") for c in str(dff.get("scenario", "")).split(";"))},
+                          what="(sandbox & keywords) leaves a flag word that differs from the model sandboxCfun over sandbox_options[]: %r" % (dff,))
+    fdiffs = fdiffs + kwdiffs
     # broken obligations without a confirmed failing input
     for u in unconfirmed:
         ctx.violation("uncovered:%s:%s" % (u["fn"], u["call"]), {"kind": "uncovered-path", "theorem": "JanetModel.Props.C18.gen_certOK", "row": {k: u[k] for k in ("fn", "call", "need", "entries", "bindings", "src")}},
-                      found=False, what="%s reaches %s (open mode %s) without asserting %s (entries %s); the sweep could not trigger it" % (u["fn"], u["call"], u.get("mode"), capnames(u["need"]), u["entries"][:4]))
+                      found=False, what="%s reaches %s (tracked mode %s, asserted mask variable %s) without asserting %s (entries %s); the sweep could not trigger it" % (u["fn"], u["call"], u.get("mode"), capnames(u.get("asserted_mask", 0)), capnames(u["need"]), u["entries"][:4]))
     if broken and not witnesses and not unconfirmed and not fdiffs:
         ctx.violation("broken:" + broken[0][:80], {"kind": "broken-obligation", "broken": broken}, found=False,
                       what="no longer shown to hold: " + "; ".join(broken)[:600])
     cov = {
-        "evaluations": total_calls + nscen,
+        "evaluations": total_calls + nscen + nkw,
         "distinct_nontrivial": total_sens,
         "rule": "one evaluation = one call of a core binding with one argument shape under one sandbox configuration and thread mode "
                 "(+ one flag-word scenario); non-trivial = the call reached a sensitive OS-level call (observed by the interposer)",
@@ -462,6 +528,7 @@ def run(ctx):
                    "flag_writes": getattr(M, "flag_writes", None), "open_flags_tracked": getattr(M, "mode_tracked", None), "open_flags_untracked": getattr(M, "mode_untracked", None), "may_grow_functions": len(getattr(M, "may_grow", []))},
         "sensitive_calls_observed": total_sens, "unpredicted": unpredicted[:10], "crashes": crashes[:20], "hangs": hangs[:20],
         "flag_scenarios": nscen, "flag_scenario_diffs": len(fdiffs), "escapes": witnesses[:10],
+        "keyword_scenarios": nkw, "keyword_scenario_distribution": kwdist, "keyword_scenario_diffs": len(kwdiffs),
     }
     return ctx.finish("proof", cov, assumptions=[
         "LLVM IR at -O0 is a faithful account of the C call structure; indirect calls and calls of functions that may reach janet_sandbox are modelled as `havoc` (flag word may grow) and their targets are entry points themselves",
